@@ -1,5 +1,6 @@
 """C13 — panics are contained and attributed (structural clauses, DESIGN §4 C13)."""
 from .engine.helpers import *
+import re
 
 EXPLANATION = (
     "Static analysis of the panic harness: (R1) every call of a Module callback (handle_message, at_sim_start, at_sim_end, reset) "
@@ -482,7 +483,97 @@ def r7_failure_changes_nothing_else(ctx):
                           "the outcome of the harnessed callback is consumed (a panicking module deactivated) before anything else of the module runs", g.where_path(path), between[:3])
 
 
+def r8_join_errors_reported(ctx):
+    """a panicked (or unfinished) joined task is always listed: when the errors collected while joining the module's tasks are not empty,
+    ModuleRef::at_sim_end returns exactly Err(those errors) — not a combination in which the module's own result can take precedence"""
+    ctx.set_rule('C13.R8')
+    f = ctx.anchor(EV + 'at_sim_end')
+    if not f:
+        return
+    n = 0
+    seen = set()
+    for path, outcome, decs in fn_paths(ctx, f):
+        if outcome != 'return':
+            continue
+        ne = [a for _, a in path_atoms(f, path, decs) if a[0] == 'bool' and a[2] is False and a[1][0] == 'call' and str(a[1][1]).endswith('is_empty')
+              and any(x[0] == 'call' and str(x[1]).endswith('RuntimeError::empty') for x in walk(a[1]))]
+        if not ne:
+            continue
+        r = path_ret_resolved(f, path)
+        r = peel(r) if r is not None else ('unknown',)
+        k = show(r)[:200]
+        if k in seen:
+            continue
+        seen.add(k)
+        n += 1
+        ok = r[0] == 'agg' and str(r[1]).endswith('Result::Err') and any(x[0] == 'call' and str(x[1]).endswith('RuntimeError::empty') for x in walk(r))
+        ctx.check(ok, 'join-errors-returned', "non-empty join errors are what at_sim_end returns (they are never dropped in favour of the module's own result)",
+                  f.where_path(path), k)
+    ctx.floor('return forms of at_sim_end with join errors', n, 1)
+
+
+# explicit panics (assert!/panic!/unreachable!) raised while a poisoning lock guard is held, audited on the pinned tree
+PANIC_UNDER_LOCK = {
+    ('des::net::gate::Gate::connect', 'Connections'): 'wiring assertion (already connected / too many peers): raised while the topology is built, a build error of the '
+                                                     'model, not a fault of one module at run time',
+}
+
+
+def r9_no_poisoning(ctx):
+    """a module's panic must not damage what healthy modules use: std's Mutex / RwLock (write side) are poisoned when a panic unwinds through
+    a live guard, and every later `lock().expect(..)` of ANY module on that object panics too.  No explicit panic is reachable while such
+    a guard is held in the net layer, outside the audited table."""
+    ctx.set_rule('C13.R9')
+    P = ctx.P
+    n_g = 0
+    found = set()
+    for f in P.fn_list:
+        if f.kind == 'promoted' or not f.key.startswith(('des::net::', '<des::net::')):
+            continue
+        for G in range(len(f.locals)):
+            ty = str(f.locals[G]['ty'])
+            if not ty.startswith(('std::sync::MutexGuard<', 'std::sync::RwLockWriteGuard<')):
+                continue
+            n_g += 1
+            defs = []
+            for b in sorted(f.reachable()):
+                t = f.blocks[b]['t']
+                if t['k'] == 'call' and t['dest']['l'] == G and not t['dest']['pr'] and t.get('t') is not None:
+                    defs.append(t['t'])
+                if any(st['k'] == 'assign' and st['p']['l'] == G and not st['p']['pr'] for st in f.blocks[b]['s']):
+                    defs.append(b)
+            seen = set()
+            stack = list(defs)
+            while stack:
+                b = stack.pop()
+                if b in seen:
+                    continue
+                seen.add(b)
+                blk = f.blocks[b]
+                if blk.get('cleanup'):
+                    continue
+                t = blk['t']
+                gone = (t['k'] == 'drop' and t['p']['l'] == G and not t['p']['pr']) or \
+                    any(st['k'] == 'assign' and st['r']['k'] == 'use' and st['r']['o'].get('k') == 'move' and st['r']['o']['p']['l'] == G and not st['r']['o']['p']['pr'] for st in blk['s']) or \
+                    (t['k'] == 'call' and any(a.get('k') == 'move' and a['p']['l'] == G and not a['p']['pr'] for a in t['args']))
+                if t['k'] == 'call' and t.get('t') is None and 'panicking' in strip_generics(t.get('callee') or ''):
+                    what = re.sub(r"^.*<'_, |^.*<", '', ty).rstrip('>').split('::')[-1]
+                    found.add((f.root or f.key, what, f.where(b)))
+                if gone:
+                    continue
+                for nb in f.succs(b):
+                    if not f.blocks[nb].get('cleanup'):
+                        stack.append(nb)
+    ctx.floor('poisoning lock guards held in the net layer', n_g, 3)
+    for fk, what, where in sorted(found):
+        ctx.check((fk, what) in PANIC_UNDER_LOCK, 'panic-under-lock:%s:%s' % (fk, what),
+                  'no explicit panic while a poisoning lock guard is held (a faulty module would poison a lock that healthy modules take)', where,
+                  PANIC_UNDER_LOCK.get((fk, what)))
+
+
 def run(ctx):
+    r8_join_errors_reported(ctx)
+    r9_no_poisoning(ctx)
     r7_failure_changes_nothing_else(ctx)
     # (R3 cont.) a panic in any start-up stage of a restart is reported, not only the last stage's (shared with C09.R4)
     from .C09 import r4_restart
